@@ -15,6 +15,10 @@ GROUP_CFG = {
     # group: dict(rlimit=.., multiple_errors=..)
     'interp': dict(rlimit=200, multiple_errors=3),
     'duration': dict(rlimit=400, multiple_errors=5),
+    # parse_quoted_string uses about half of the default budget on the unchanged tree: a renamed local tipped it over (neutral edit
+    # rename-locals-unicode-escapes); a generous limit keeps harmless edits decided (the unit takes 5 s)
+    'literals': dict(rlimit=150),
+    'literals_open': dict(rlimit=150),
 }
 
 KINDS = [
